@@ -6,8 +6,10 @@ patch="$1"; prop="$2"; shift 2
 cd /verif || exit 2
 if ! git -C /repo diff --quiet; then echo "/repo has uncommitted changes" >&2; exit 2; fi
 case "$patch" in /*) ;; *) patch="/verif/$patch";; esac; git -C /repo apply "$patch" || { echo "patch does not apply" >&2; exit 2; }
+cp evidence/$prop.json /tmp/mutcheck.$$.ev 2>/dev/null
 ./check "$prop" "$@" > /tmp/mutcheck.$$.out 2>&1
 st=$?
+[ -f /tmp/mutcheck.$$.ev ] && mv /tmp/mutcheck.$$.ev evidence/$prop.json
 git -C /repo checkout -- . 
 grep -E "^VIOLATION|HELD|INCONCLUSIVE|SPURIOUS" /tmp/mutcheck.$$.out | head -5
 rm -f /tmp/mutcheck.$$.out
